@@ -6,7 +6,9 @@ P=${1:-4}
 one() {
   s=$1; pid=${s:0:3}
   rm -rf /tmp/seed_$s; cp -r /verif/seeded/$s /tmp/seed_$s
-  python3 /verif/tools/confirm_seed.py /tmp/seed_$s $s $pid > /tmp/confirm_$s.log 2>&1
+  # the checks that caught it when it was stored (a seed is not always caught by the check of its own property)
+  pids=$(python3 -c "import json;print(' '.join(json.load(open('/verif/seeded/$s/meta.json')).get('confirmation',{}).get('checks',{}).keys()) or '$pid')")
+  python3 /verif/tools/confirm_seed.py /tmp/seed_$s $s $pids > /tmp/confirm_$s.log 2>&1
   echo "$s exit=$? $(python3 -c "import json;c=json.load(open('/tmp/seed_$s/last_confirmation.json'));print(c.get('confirmed'),c.get('patch_applies'),c.get('demo_with_patch_rc'),c.get('rebased'),{k:v['rc'] for k,v in c.get('checks',{}).items()})" 2>&1)" >> /tmp/confirm_summary.log
 }
 export -f one
